@@ -208,7 +208,7 @@ func c12Spec() *propSpec {
 func c18Spec() *propSpec {
 	return &propSpec{
 		ID: "C18", Harness: "netsim", Level: "exploration", Chunk: 1, Workers: 16, HangIsViolation: true, // one case per process: client/network keeps package-level maps (blocks to get, received, discarded)
-		Quick:    tierParams{Runs: 1500, BudgetS: 75, PerRunS: 240, RaceRuns: 0, ShrinkAttempts: 120, ShrinkS: 120},
+		Quick:    tierParams{Runs: 1500, BudgetS: 100, PerRunS: 240, RaceRuns: 0, ShrinkAttempts: 120, ShrinkS: 120},
 		Thorough: tierParams{Runs: 20000, BudgetS: 1200, PerRunS: 900, RaceRuns: 0, ShrinkAttempts: 400, ShrinkS: 400},
 		Rule: "one case = 1-4 simulated peers, each sending 1-40 messages drawn from all commands of the property's list plus unknown ones, before and after version; payloads valid (built from the node's real state: real hashes, locators, new valid headers/blocks/transactions, fully prefilled compact blocks), or valid with one structural mutation (bit flips, truncation, trailing garbage, count field replaced by other values / non-minimal / 2^64-1 encodings, empty, per-command maximum size), or random bytes; header mutations (magic, checksum, length shorter / longer / huge); delivery with fragmentation 1 byte .. whole message, pauses around the 10 ms read deadline, resets inside a message; all interleavings of readers, writers, the main-loop stub and other peers chosen by the scheduler. Oracles: Run() never returns without having closed its connection (escaped panic), the connection goroutine holds no lock whenever it re-enters Read() or ends, no message costs more than 2e6 scheduler steps, no deadlock / os.Exit / fatal error, connection goroutines end within 10 simulated s after hang-up, the main loop keeps ticking and a fresh well-behaved peer gets its pong within 5 simulated s.",
 		Components: map[string][]string{
